@@ -229,11 +229,19 @@ func session(kind int, id int) (obs []string, late func() []string, err error) {
 		}
 		cobs = append(cobs, "hs:"+hs.Protocol+fmt.Sprint(len(hs.Extensions))+extsString(hs.Extensions))
 		keepCProto, keepExts = hs.Protocol, hs.Extensions
+		ownBuf := make([]byte, []int{128, 256, 512}[kind%3])
 		for mi, sz := range sizes {
 			msg := vh.PBytes(kind*10+mi, 0, sz)
 			var ms wsflate.MessageState
 			ms.SetCompressed(compressed && len(hs.Extensions) > 0)
 			w := wsutil.NewWriterSize(ca, ws.StateClientSide, ws.OpBinary, []int{64, 4096, 125}[mi%3])
+			if kind%4 == 2 {
+				// a writer over the session's own buffer (its size a class of the shared byte pool), with
+				// flushing disabled: messages larger than the buffer make it grow; the buffer stays the
+				// session's and is used again for the next message
+				w = wsutil.NewWriterBuffer(ca, ws.StateClientSide, ws.OpBinary, ownBuf)
+				w.DisableFlush()
+			}
 			w.SetExtensions(&ms)
 			if ms.IsCompressed() {
 				fw := wsflate.NewWriter(w, func(x io.Writer) wsflate.Compressor { f, _ := flate.NewWriter(x, 1); return f })
